@@ -43,8 +43,10 @@ def stmt_forms(rng):
         vs[0] = ("I%", "int")
         vs[1] = ("P(I%)", "arr")
     form = rng.choice(["plain", "prompt", "comma", "comma-prompt"])
-    text = {"plain": "", "prompt": '"Enter";', "comma": ",", "comma-prompt": ',"q";'}[form]
-    prompt = {"plain": "? ", "prompt": "Enter? ", "comma": "? ", "comma-prompt": "q? "}[form]
+    # the programmer's own prompt text is shown as it is, whatever it ends in, and '? ' is added to it every time
+    own = rng.choice(["Enter", "q", "Enter", "SURE? ", "? ", "?", " ", "a?", "? ? ", "\u00e9? ", "x ?", "Enter: "])
+    text = {"plain": "", "prompt": '"%s";' % own, "comma": ",", "comma-prompt": ',"%s";' % own}[form]
+    prompt = {"plain": "? ", "prompt": own + "? ", "comma": "? ", "comma-prompt": own + "? "}[form]
     caps = form in ("plain", "prompt")
     return vs, "INPUT %s%s" % (text, ",".join(v for v, _ in vs)), prompt, caps
 
